@@ -65,6 +65,25 @@ CLAIMED = {
             "input sets include leaf cells, buried formula cells and ranges, output sets single cells, pairs, ranges and output=input.",
             "Bounds: 20 enumerated trim cases over 7 templates; inputs {number, logical, blank}, ints |v|<=99; second assignment limited to one or two cells.",
             "DESIGN.md 4/C08"),
+    "C06": ("model_checking",
+            "CrossHair symbolic execution of the real iterative evaluator (pass loop, tracker, cycle cells) with symbolic inputs, iteration count and tolerance; z3 (linear real arithmetic) decides every path",
+            "Acyclic templates with cycles enabled are driven through C01-style histories and compared with the full recompute (first use included); linear circular systems with ||A||inf = 1/2 "
+            "(one through a SUM range) are run with symbolic b, iterations and tolerance: passes <= iterations, early stop implies the last step <= tolerance(1+1e-5), result within q/(1-q) of it from the "
+            "exact fixed point; explicit per-call settings do not leak into default calls.",
+            "Bounds: b int |b|<=99, iterations 1..5, tolerance real 0.01..50 (1e-7.. on the fast system), floats as exact reals (binary64 rounding against the tolerance is outside the claim).",
+            "DESIGN.md 4/C06"),
+    "C09": ("model_checking",
+            "CrossHair symbolic execution of the real evaluation/error path with a fault-injecting plugin function whose failure condition and the cell values are symbolic",
+            "For failing sites leaf / mid-chain / range member / CSE member / unknown function / formula with a captured operator error, in plain and iterative mode: the failing cell and its "
+            "dependant raise pycel's own exceptions on every retry, unrelated cells equal the full recompute, and after overwriting the failing cell the model equals a fresh one.",
+            "Bounds: 6 templates, threshold/k-th-call failure conditions, exceptions ValueError/NameError(/ZeroDivisionError/KeyError), ints |v|<=99; known finding: overwrite-repair is ineffective in iterative mode.",
+            "DESIGN.md 4/C09"),
+    "C12": ("model_checking",
+            "CrossHair symbolic execution of the real validate_calcs/close_enough over a stored-results wrapper whose one stored result is a symbolic alteration",
+            "Each formula cell of each template in turn gets its stored result replaced by s+d (d symbolic), a text, a logical, an error or blank; with default or symbolic tolerance and default or "
+            "explicit outputs the report must be {} without alteration, and otherwise name the cell with (stored, recomputed) and only dependants of it besides; unevaluable cells are listed.",
+            "Bounds: 15 (template, cell, outputs) cases, |d|<=50, tolerance default or int 1..10; the stored-results workbook is two in-memory openpyxl workbooks behind the real ExcelOpxWrapper.",
+            "DESIGN.md 4/C12"),
 }
 
 NOT_YET = "check not built yet in this round (machinery under construction); see DESIGN.md section 4"
